@@ -438,6 +438,11 @@ func parseBlock(c *casketfile.Dispenser, u *staticUpstream, hasSrv bool) error {
 		if err != nil {
 			return err
 		}
+		if dur <= 0 {
+			// (the health-check worker hands it to time.NewTicker,
+			// which panics, in a goroutine nothing can recover)
+			return c.Err("health_check_interval must be positive")
+		}
 		u.HealthCheck.Interval = dur
 	case "health_check_timeout":
 		var interval string
